@@ -779,7 +779,17 @@ fn run_case<K: Kind>(case: &Case, out: &mut dyn FnMut(String)) {
                         if K::IMPORT {
                             // fresh manager, same number of variables, creation order
                             let fm = K::new_mgr(cap, nv);
-                            match guarded(|| K::import(&fm, &base, &SvMode::Sorted, false)) {
+                            // "compatible order": the fresh manager gets the order of the source
+                            let v2l = K::v2l(&m);
+                            let identity = v2l.iter().enumerate().all(|(v, &l)| v as u32 == l);
+                            if !identity {
+                                let mut l2v = vec![0u32; v2l.len()];
+                                for (v, &l) in v2l.iter().enumerate() {
+                                    l2v[l as usize] = v as u32;
+                                }
+                                K::reorder(&fm, &l2v);
+                            }
+                            match guarded(|| K::import(&fm, &base, &SvMode::Order, false)) {
                                 Err(p) => aux.push(format!(".fresh PANIC {p}")),
                                 Ok(Imported::Done(_, svs, Ok(fs))) => aux.push(format!(
                                     ".fresh sv={} ok tt={}",
@@ -791,7 +801,7 @@ fn run_case<K: Kind>(case: &Case, out: &mut dyn FnMut(String)) {
                                 Ok(Imported::Skipped(_, why)) => aux.push(format!(".fresh skip={why}")),
                             }
                             // embedding into a larger manager: variable v -> 2v+1
-                            if nv <= 5 && K::NAME != "zbdd" {
+                            if nv <= 5 && K::NAME != "zbdd" && identity {
                                 let nv2 = 2 * nv + 1;
                                 let em = K::new_mgr(cap, nv2);
                                 let map: Vec<u32> = (0..nv).map(|v| 2 * v + 1).collect();
@@ -1034,7 +1044,7 @@ impl Gen {
                 }
             }
             if self.reorder {
-                ops.push(format!("O {}", join(p)));
+                ops.push(format!("O {}", p.iter().map(|x| x.to_string()).collect::<Vec<_>>().join(" ")));
             }
             ops.extend(self.all_x_ops(8, style >= 3));
             self.emit("valid", dd, 3, "", &ops);
@@ -1066,7 +1076,7 @@ impl Gen {
                 }
             }
             if self.reorder && nv >= 2 {
-                ops.push(format!("O {}", join(self.perm(nv))));
+                ops.push(format!("O {}", self.perm(nv).iter().map(|x| x.to_string()).collect::<Vec<_>>().join(" ")));
             }
             if ci % 3 == 0 {
                 ops.extend(self.all_x_ops(nf, style >= 3));
